@@ -32,6 +32,11 @@ def run(job):
                      ref_unit_symbol=W.uid("rr"), quantum=1)
     PM = QuantityMeta(W.uid("VPM"), (Quantity,), {}, define_as=Money / P.Mass)
     eur_kg = PM.derive_unit_from(EUR, P.KILOGRAM)
+    # aliases: units that compare equal to a base unit / a derived unit but
+    # are distinct objects (scale 1 resp. equal scale)
+    P.Length.new_unit(W.uid("mx"), define_as=Decimal(1) * P.METRE)
+    P.Duration.new_unit(W.uid("sx"), define_as=Fraction(1) * P.SECOND)
+    P.Mass.new_unit(W.uid("Mgx"), define_as=Decimal(1000) * P.KILOGRAM)
     units = O.all_units()
     by_dim = {}
     for u in units:
